@@ -20,7 +20,7 @@ let hexval c = match c with
   | '0'..'9' -> Char.code c - 48 | 'a'..'f' -> Char.code c - 87 | 'A'..'F' -> Char.code c - 55
   | _ -> failwith "bad hex"
 let bytes_of_hex (s : string) : n list =
-  if s = "-" then [] else begin
+  if s = "-" || s = "nil" then [] else begin
     let l = String.length s / 2 in
     let r = ref [] in
     for i = l - 1 downto 0 do
